@@ -7,7 +7,7 @@ names=${*:-$(ls seeded)}
 ok=0; bad=0
 for n in $names; do
   p=$(python3 -c "import json; print(json.load(open('seeded/$n/meta.json'))['breaks_property'])")
-  git -C /repo apply seeded/$n/patch.diff || { echo "$n: patch does not apply"; bad=$((bad+1)); continue; }
+  git -C /repo apply /verif/seeded/$n/patch.diff || { echo "$n: patch does not apply"; bad=$((bad+1)); continue; }
   out=$(./check $p quick 2>/dev/null | grep VIOLATION | head -1)
   git -C /repo checkout -- . ; git -C /repo clean -fdq tests 2>/dev/null
   case "$out" in
@@ -18,7 +18,7 @@ for n in $names; do
 done
 for m in revert-D1D2:C07 revert-D3:C15 revert-D4:C16 revert-D5:C14 revert-D6:C07; do
   f=${m%%:*}; p=${m##*:}
-  git -C /repo apply mutants/$f.patch || continue
+  git -C /repo apply /verif/mutants/$f.patch || continue
   out=$(./check $p quick 2>/dev/null | grep VIOLATION | head -1)
   git -C /repo checkout -- .
   case "$out" in
